@@ -408,8 +408,11 @@ def topological_sort(nodes):
     enumerator_owners = dict((member.name, node.name) for node in nodes if isinstance(node, Enum)
                              for member in node.members)
     for index in range(len(nodes)):
+        rotations = 0
         while model_sort_rotate():
-            pass
+            rotations += 1
+            if rotations > len(nodes) - index:
+                raise ModelError("Definition '{}' depends on itself (cyclic dependency).".format(nodes[index].name))
 
 
 def _make_types_index(nodes_):
